@@ -107,5 +107,20 @@ let () = register "nslex" (fun c ->
   | L [A "lex"; s] ->
     let b x = A (if x then "true" else "false") in
     let s = cs s in
-    L [b (Model.valid_address s); b (Model.valid_asset s); b (Model.lexer_asset s)]
+    L [b (Model.valid_address s); b (Model.valid_asset s); b (Model.lexer_asset s && Model.valid_asset s)]
   | _ -> failwith "bad lex case")
+
+(* ---- nstx: (tx <force> ((src dst asset amt)...) ((acc asset bal)...)) -> (ok (postings)) | (err class) | (panic)
+   the extracted TxScriptCore.tx_run = Sem.run on the script TxToScriptData's model generates ---- *)
+let () = register "nstx" (fun c ->
+  match c with
+  | L [A "tx"; A force; L ps; L bs] ->
+    let post = function L [s; d; a; n] -> { Model.psrc = cs s; Model.pdst = cs d; Model.passet = cs a; Model.pamt = zarg n } | _ -> failwith "posting" in
+    let st = { Model.st_bal = List.map (function L [a; s; n] -> ((cs a, cs s), zarg n) | _ -> failwith "bal") bs; Model.st_meta = [] } in
+    (match Model.tx_run (force = "true") (List.map post ps) st with
+     | Model.Panic -> L [A "panic"]
+     | Model.Err e -> L [A "err"; A (errname e)]
+     | Model.Ok r ->
+       L [A "ok"; L (List.map (fun (p : Model.npost) -> L [S (str p.Model.psrc); S (str p.Model.pdst); S (str p.Model.passet); zout p.Model.pamt])
+                       (Model.all_postings r))])
+  | _ -> failwith "bad tx case")
